@@ -234,6 +234,19 @@ def run(ctx):
             sessions.append(["go %s | %s | depth %d" % (f, " ".join(seq + seq), d) for d in (1, 3)])
             meta.append([(f, d, "m1") for d in (1, 3)])
     ctx.notes["mate_in_one_at_drawn_roots"] = {"clock_100_130": 2 * len(m1sub), "third_occurrence": nrep}
+    # the table contents an earlier REAL search of the session can leave: the same position searched with `searchmoves` restricted to
+    # non-mating moves, then searched without restriction (no position command in between: same table epoch)
+    nrs = 0
+    for f in m1sub:
+        non = [m for m in info[f]["legal"] if m not in info[f]["mating"]]
+        if not non:
+            continue
+        rng.shuffle(non)
+        sub = non[: rng.choice([1, 1, 2, 3])]
+        sessions.append(["go %s | | depth %d searchmoves %s" % (f, rng.choice([1, 2, 3]), " ".join(sub)), "go %s | | depth 1" % f, "go %s | | depth 2" % f])
+        meta.append([None, (f, 1, "m1"), (f, 2, "m1")])
+        nrs += 1
+    ctx.notes["mate_in_one_after_restricted_search"] = nrs
     # sessions along short games so that the table carries earlier real searches
     games = posgen.playouts(model, rng, [rng.choice(others) for _ in range(120 if q else 1500)], 4, bias=7)
     gl = ["g_fen %s | %s" % (f, " ".join(ms)) for f, ms in games]
@@ -352,7 +365,7 @@ def run(ctx):
         longc = longc[:20]
     else:
         # budget: all mate-3 / mate-4 claims up to 400, mate-5 claims (about a minute each) up to 64
-        longc = [c for c in longc if c[1] <= 4][:400] + [c for c in longc if c[1] == 5][:64]
+        longc = [c for c in longc if c[1] <= 4][:160] + [c for c in longc if c[1] == 5][:16]
     judged += [(c, "matem %d %s" % (c[1], c[0])) for c in longc]
     ctx.notes["long_claims_judged_by_memo_solver"] = len(longc)
     rc, jr, err = run_lines(model, [j[1] for j in judged], shards=NPROC, timeout=3000)
@@ -360,11 +373,17 @@ def run(ctx):
     short = [(c, cmd) for c, cmd in judged if cmd.startswith("mate ")]
     rc, xr, err = run_lines(model, [cmd.replace("mate ", "matem ", 1) for c, cmd in short], shards=NPROC, timeout=1700)
     for (c, cmd), a, b in zip(short, [r for (cc, cm), r in zip(judged, jr) if cm.startswith("mate ")], xr):
+        if a is None or b is None:
+            continue          # a shard ran out of time: that claim is counted as not judged below
         if (a or "").split()[:2] != (b or "").split()[:2]:
             raise BuildError("memoised mate solver disagrees with Rules.forced_mate_within on '%s': %s vs %s" % (cmd, a, b))
     ntrue = 0
+    unjudged = 0
     for (c, cmd), r in zip(judged, jr):
         fen, y, neg, lines, ln, txt = c
+        if r is None:
+            unjudged += 1      # solver did not finish within the time limit: no verdict, no alarm
+            continue
         t = (r or "0 0").split()
         truth = (t[1] == "1") if neg else (t[0] == "1")
         if y == 0:
@@ -383,6 +402,7 @@ def run(ctx):
     ctx.notes["mate_claims_seen"] = len(claims)
     ctx.notes["mate_claims_judged"] = len(judged)
     ctx.notes["mate_claims_true"] = ntrue
+    ctx.notes["mate_claims_solver_timed_out"] = unjudged
     ctx.notes["claims_by_distance"] = {str(k): sum(1 for c in claims if c[1] == k) for k in sorted(set(c[1] for c in claims))}
     for c in claims[:3]:
         ctx.sample({"position": c[0], "cmd": c[4].split(" | ")[-1], "final_score": c[5]})
